@@ -139,7 +139,11 @@ FmaFailsC(f, x, y, z, dom, rn, r, fo) ==
   IF ~dom \/ WithinR(f, r, rn, 1) THEN {}
   ELSE IF ~fo /\ ~IsFinite(f, r) /\ NearOverflow(f, x, y, z) THEN {}
   ELSE IF ProdTop(f, x, y) /\ FallbackLike(f, x, y, z, r) THEN {"fma_1ulp_prodtop"}
-  ELSE IF ResTop(f, x, y, z) /\ FallbackInf(f, x, y, z, r) THEN {"fma_1ulp_restop"} ELSE {"fma_1ulp"}
+  ELSE IF ResTop(f, x, y, z) /\ FallbackInf(f, x, y, z, r)
+       THEN \* keyed apart: the once-rounded sum fl(x*y) + z itself overflows (the documented fallback), or only an
+            \* intermediate of the compensated sum does (fl(x*y) + z is finite)
+            (IF ~IsFinite(f, FallbackSum(f, x, y, z)) THEN {"fma_1ulp_restop"} ELSE {"fma_1ulp_restop_intermediate"})
+       ELSE {"fma_1ulp"}
 FmaFails(f, x, y, z, r, fo) ==
   FmaFailsC(f, x, y, z, FmaDomain(f, x, y, z), RN(f, FMAExact(f, x, y, z)), r, fo)
 
